@@ -578,6 +578,10 @@ def features(steps):
             c = canon(a)
             if a != pclean(a):
                 f.add("unclean-spelling")
+            if w[1] == "remove" and c in adds and (os.path.dirname(c) or ".") in adddirs:
+                f.add("entry-user-removed")
+            if w[1] == "remove":
+                adddirs.discard(c)
             if w[1] == "add":
                 k = kinds.get(c)
                 if k == "p":
@@ -606,7 +610,7 @@ def features(steps):
 
 
 CAUSES = ["fifo-added", "symlink-added", "fifo-entry", "dangling-symlink-entry", "symlink-entry",
-          "watched-dir-renamed", "watched-file-overwritten", "rename-then-recreate-in-burst", "unclean-spelling"]
+          "watched-dir-renamed", "watched-file-overwritten", "rename-then-recreate-in-burst", "entry-user-removed", "unclean-spelling"]
 
 
 def spec_key(clause, detail, steps):
@@ -668,7 +672,7 @@ def triage_spec(ctx, hists, res, prop, max_per_group=3, max_total=60):
             continue
         # rough pre-classification: clause + the features of the history prefix up to the violating step
         pre = features(by_hist[m["hist"]][:m["step"]])
-        g = (m["clause"], tuple(pre))
+        g = (m["clause"], tuple(c for c in CAUSES if c in pre)[:2])
         if g not in groups:
             groups[g] = []
             order.append(g)
@@ -695,3 +699,264 @@ def triage_spec(ctx, hists, res, prop, max_per_group=3, max_total=60):
                               "from": m["hist"], "count": found.get(key, {}).get("count", 0)}
             found[key]["count"] += 1
     return found
+
+
+# ------------------------------------------------------------------ the checks
+
+WHAT = {
+    "close-leaks-descriptors": "Close marks the watcher closed and then calls Remove, which returns early once closed: every watch descriptor stays open after Close",
+    "unclean-spelling": "addUserWatch stores the uncleaned Add argument while remove deletes the cleaned one: after Remove the path is still in WatchList/byUser (and an entry the user added under an unclean spelling is treated as internal)",
+    "fifo-added": "Add of a FIFO/socket returns nil and records a user watch although nothing is watched: it is listed by WatchList and Remove fails with ErrNonExistentWatch",
+    "symlink-added": "a watch added through a symlink is filed under the target's name: Remove(link) fails, deletion/rename of the target leaves the descriptor open and the link in WatchList (addLink leaves path->0/seen entries when the target is already watched)",
+    "watched-dir-renamed": "when a watched directory is renamed only its own watch is removed: the per-entry watches (descriptors, table entries) stay until each entry is deleted",
+    "fifo-entry": "a FIFO inside a watched directory is never marked seen (internalWatch returns \"\"; seen[\"\"] is set instead and never cleared): Create is repeated on every directory change, its removal is not reported",
+    "dangling-symlink-entry": "an unresolvable symlink inside a watched directory makes open fail: Add of the directory fails half-way leaving watches behind; later scans report its Create again on every change and stop before the entries sorted after it",
+    "symlink-entry": "the per-entry watch of a symlink follows the link (open without O_NOFOLLOW): removing/renaming/overwriting the link itself is not reported (recorded as broken in testdata/watch-dir/remove-symlink) and target events are reported under the link's name",
+    "watched-file-overwritten": "when a watched file is replaced by rename the watcher re-watches the new file internally: WatchList no longer shows it but the descriptor and table entries remain",
+    "remove-of-unadded-succeeds": "Remove succeeds on a per-entry watch the user never added (documented: ErrNonExistentWatch) and silently stops the reporting for that entry",
+    "entry-user-removed": "Remove of a user-added entry of a watched directory removes the one shared watch: the directory stops reporting that entry's changes and reports Create for it again",
+    "rename-then-recreate-in-burst": "a name renamed away and created again before the reader runs gets no Create until the directory changes again (only NOTE_DELETE, not NOTE_RENAME, triggers the re-scan of the name)",
+}
+
+
+def prepare(run, pid):
+    """static proofs, props, copied backend, harness, driver, testdata gate. Returns dict."""
+    P = {}
+    with Lock():
+        P["coq_ok"], P["coq_log"] = coq_build(KQ_V + [PROPS[pid]])
+        files = KQ_V + [PROPS[pid]]
+        P["obl"] = proof_obligations(files, P["coq_log"], P["coq_ok"])
+        P["pa"] = (0, [])
+        if P["coq_ok"]:
+            rc, out = sh("timeout 900 %s %s" % (COQC, PROPS[pid]), cwd=COQ, timeout=930)
+            P["pa"] = assumptions_from_log(out)
+            P["pa_text"] = out[-1500:]
+        P["kq_ok"], P["kq_log"], P["kqh"] = build_kq()
+        P["drv_ok"], P["drv_log"], P["drv"] = build_driver()
+    P["gate"] = []
+    if P["kq_ok"]:
+        rc, out = sh("timeout 120 %s -scripts %s" % (P["kqh"], os.path.join(REPO, "testdata")), timeout=150)
+        for l in out.split("\n"):
+            m = re.match(r"SCRIPT (\S+) (\S+) ?(.*)", l)
+            if m:
+                P["gate"].append({"script": m.group(1), "verdict": m.group(2), "detail": m.group(3)})
+    return P
+
+
+def canon_hist(steps):
+    return "\n".join(steps)
+
+
+def nontrivial(lines, pid):
+    """C17: some step changes the ledger or a table size; C18: at least one delivered event"""
+    prev = None
+    for l in lines[1:]:
+        if pid == "C18":
+            if re.search(r" ev=\[[^\]]", l):
+                return True
+        else:
+            m = re.search(r" led=\[(.*?)\] sizes=(\S+)", l)
+            if m:
+                cur = (m.group(1), m.group(2))
+                if prev is not None and cur != prev:
+                    return True
+                prev = cur
+    return False
+
+
+def hist_stats(obs_by_hist):
+    ev, mx, steps = 0, 0, 0
+    evh, szh = {}, {}
+    for hid, lines in obs_by_hist.items():
+        n = 0
+        for l in lines[1:]:
+            steps += 1
+            m = re.search(r" ev=\[(.*?)\]", l)
+            if m and m.group(1):
+                n += len(m.group(1).split(","))
+            m = re.search(r" sizes=(\d+),", l)
+            if m:
+                mx = max(mx, int(m.group(1)))
+                b = min(int(m.group(1)), 10)
+                szh[b] = szh.get(b, 0) + 1
+        ev += n
+        b = "0" if n == 0 else ("1-4" if n < 5 else ("5-14" if n < 15 else "15+"))
+        evh[b] = evh.get(b, 0) + 1
+    return {"events_delivered": ev, "max_wd_table": mx, "events_per_history": evh, "wd_table_size_per_step": szh, "steps": steps}
+
+
+def run_check(run, pid):
+    t0 = time.time()
+    P = prepare(run, pid)
+    total, done, failed = P["obl"]
+    notes = []
+    gate_pass = [g["script"] for g in P["gate"] if g["verdict"] == "PASS"]
+    gate_skip = [g for g in P["gate"] if g["verdict"] == "SKIP"]
+    gate_bad = [g for g in P["gate"] if g["verdict"] not in ("PASS", "SKIP")]
+    cov = {"obligations": total, "discharged": done, "failed_obligations": failed,
+           "checker_cmd": "coqc 8.16.1: theories/KqModel.v theories/KqInv.v %s (statements in %s restate lemmas of KqInv.v by `exact`)" % (PROPS[pid], PROPS[pid]),
+           "trusted_base": TRUSTED_COMMON + [
+               "simulated vnode kernel: NOTE_* rules of DESIGN 3.6 implemented twice (Go: kq/harness fsop + kq/simunix; Gallina: KqModel.fs_apply/k_raise), "
+               "validated only against the repository's recorded kqueue/freebsd expectations (testdata gate below) and against each other on every step",
+               "no BSD kernel is run; schedules are those the simulated kevent admits (API calls and filesystem operations while the reader is idle or withheld)",
+               "extraction: " + "; ".join(EXTRACT_DIRECTIVES), "OCaml 4.13.1, driver/kqdriver.ml; Go harness kq/harness, descriptor ledger kq/simunix",
+               "specification predicates (KqModel.v section 7) use the filesystem model as environment, never the watcher model",
+               "Go runtime (channels, mutexes), os.ReadDir/Lstat/Readlink, filepath.Clean/Dir/Join are modelled (clean/dir/pjoin) and exercised by the correspondence only"],
+           "print_assumptions": {"closed_under_global_context": P["pa"][0], "axioms": P["pa"][1]},
+           "testdata_gate": {"passed": len(gate_pass), "skipped": len(gate_skip), "failed": len(gate_bad), "passing_scripts": gate_pass,
+                             "skipped_scripts": [g["script"] + ": " + g["detail"] for g in gate_skip],
+                             "failing_scripts": [g["script"] + ": " + g["detail"] for g in gate_bad]},
+           "notes": notes}
+    run.cov.update(cov)
+    run.assumptions += ["kevent(2)/FreeBSD vop_*_post semantics as in DESIGN 3.6 (model); partial: no real BSD kernel",
+                        "quantifier: the theorems of KqInv.v range over ALL step sequences of the model with arbitrary filesystem answers; "
+                        "the tie to the code is differential (histories run on the real backend_kqueue.go compiled against simunix)"]
+    if not P["coq_ok"]:
+        run.violation("static-proof", "Coq development for %s does not build: %s" % (pid, ", ".join(failed)),
+                      {"theorem": failed, "log": P["coq_log"][-3000:]}, nofail=True)
+    if not P["kq_ok"]:
+        run.violation("copied-backend-build", "the kqueue backend copied from the working tree does not compile against simunix; the tie cannot be established: "
+                      + P["kq_log"].strip()[:400], {"correspondence": "kq", "build_log": P["kq_log"][-3000:], "source": KQ_SRC}, nofail=True)
+        return
+    if not P["drv_ok"]:
+        run.violation("driver-build", "extraction or OCaml driver does not build", {"log": P["drv_log"][-3000:]}, nofail=True)
+        return
+    if gate_bad or not gate_pass:
+        run.violation("testdata-gate", "the simulated kernel + copied backend no longer reproduce the repository's recorded kqueue expectations: "
+                      + "; ".join(g["script"] + " " + g["detail"] for g in gate_bad)[:600],
+                      {"gate": gate_bad, "how": "build/kq/kqh -scripts %s/testdata" % REPO}, nofail=True)
+
+    # ---- histories: corpus first, then seeded random
+    quick = run.tier != "thorough"
+    stats = new_stats()
+    nrand, length = (220, 36) if quick else (2500, 48)
+    hists = [(a, "corpus", b) for a, b in CORPUS]
+    for extra in sorted(glob.glob(os.path.join(VERIF, "corpus", "kq-*.hist"))):
+        st_ = [l.split("=>")[0].strip() for l in open(extra) if l.strip() and not l.startswith(("H ", "#", "E "))]
+        hists.append((os.path.basename(extra)[:-5], "corpus", st_))
+    hists += gen_histories(run.seed, nrand, length, stats)
+    if not quick:
+        hists += gen_histories(run.seed + 7919, 1500, 24, stats, tag="s")
+    res = run_pipeline(P["kqh"], P["drv"], hists, pid.lower(), timeout=1200)
+    if res.get("error"):
+        run.violation("harness-run", "harness or driver failed: " + res["error"][:300], {"log": res["error"]}, nofail=True)
+        return
+    obs = read_obs(res["obs"])
+    ctx = Ctx(P["kqh"], P["drv"])
+    by_hist = {h[0]: h[2] for h in hists}
+
+    # ---- (1) specification on the implementation's observations
+    found = triage_spec(ctx, hists, res, pid, max_per_group=1 if quick else 3, max_total=45 if quick else 400)
+    for key, v in sorted(found.items()):
+        run.violation(key, WHAT.get(key, "clause %s of %s fails on the implementation: %s" % (v["clause"], pid, v["detail"])),
+                      {"kind": "spec", "clause": v["clause"], "detail": v["detail"], "minimal_history": v["steps"], "observations": v["lines"],
+                       "found_in": v["from"], "how": "bin/check %s --replay <this file>" % pid})
+
+    # ---- (2) model vs implementation on this property's projection
+    mm = [m for m in res["model"] if m["prop"] == pid]
+    div_hists = []
+    for m in mm:
+        if m["hist"] not in div_hists:
+            div_hists.append(m["hist"])
+    reported = set()
+    for hid in div_hists[: (4 if quick else 12)]:
+        first = next(m for m in mm if m["hist"] == hid)
+        steps = by_hist[hid][:first["step"]]
+        pred = lambda x: any(s["prop"] == pid for s in x["model"])
+        mini = ctx.minimise(steps, pred)
+        lines, r = annotate(ctx, mini)
+        fm = next((x for x in r.get("model", []) if x["prop"] == pid), first)
+        # spec verdict on the implementation's own observations for the minimal history
+        sv = [s for s in r.get("spec", []) if s["prop"] == pid]
+        new = [s for s in sv if spec_key(s["clause"], s["detail"], mini) not in run.known]
+        if new:
+            s0 = new[0]
+            key = spec_key(s0["clause"], s0["detail"], mini)
+            if key not in reported and key not in found:
+                reported.add(key)
+                run.violation(key, "implementation diverges from the model AND violates clause %s (%s)" % (s0["clause"], s0["detail"]),
+                              {"kind": "divergence+spec", "clause": s0["clause"], "detail": s0["detail"], "minimal_history": mini, "observations": lines,
+                               "model_vs_impl": fm["text"], "field": fm["field"]})
+        else:
+            key = "model-divergence-" + fm["field"]
+            if key not in reported:
+                reported.add(key)
+                run.violation(key, "the implementation no longer behaves like KqModel.v on the %s projection (%s): the theorems do not speak about this code"
+                              % (pid, fm["field"]), {"kind": "divergence", "minimal_history": mini, "observations": lines, "model_vs_impl": fm["text"],
+                                                     "spec_verdict": "no unlisted clause fails on this history"}, nofail=True)
+    env_h = sorted(set(m["hist"] for m in res["env"]))
+    if env_h and not mm:
+        notes.append("environment-model discrepancies (filesystem tree / registrations) in %d histories: %s" % (len(env_h), res["env"][0]["text"][:200]))
+
+    # ---- evidence
+    nontriv = set()
+    for hid, lines in obs.items():
+        if nontrivial(lines, pid):
+            nontriv.add(canon_hist(by_hist.get(hid, [])))
+    hs = hist_stats(obs)
+    samples = []
+    for hid in list(obs)[:2] + [h for h in obs if h.startswith("r")][:2]:
+        samples.append([l[:400] for l in obs[hid][:40]])
+    summ = dict(kv.split("=") for kv in res["summary"].split()[1:]) if res["summary"] else {}
+    run.cov.update({
+        "evaluations": int(summ.get("steps", 0)),
+        "histories": len(hists), "distinct_nontrivial": len(nontriv),
+        "rule": "one evaluation = one history step executed on the real copied backend and on the extracted model with the projected observables compared; "
+                "distinct_nontrivial = distinct step sequences in which " + ("the ledger or a table size changes" if pid == "C17" else "at least one event is delivered"),
+        "full_model_agreement_steps": int(summ.get("agree_full", 0)),
+        "model_mismatches": {"C17": int(summ.get("model_mismatch_c17", 0)), "C18": int(summ.get("model_mismatch_c18", 0)),
+                             "other": int(summ.get("model_mismatch_other", 0)), "environment": int(summ.get("env_mismatch", 0))},
+        "spec_violation_lines": {"C17": int(summ.get("spec_c17", 0)), "C18": int(summ.get("spec_c18", 0))},
+        "minimisation_runs": ctx.runs,
+        "distributions": {"operations": stats["ops"], "spellings": stats["spellings"], "profiles": stats["profiles"], "bursts": stats["bursts"], **hs},
+        "samples": samples, "driver_summary": res["summary"],
+        "source_tree": KQ_SRC, "wall_pipeline_s": round(time.time() - t0, 1),
+    })
+
+
+def check_C17(run):
+    run_check(run, "C17")
+
+
+def check_C18(run):
+    run_check(run, "C18")
+
+
+def replay(run, path):
+    """re-execute a replay file against the current tree: observation, model prediction, predicate verdict"""
+    d = json.load(open(path))
+    rp = d.get("replay", {})
+    steps = rp.get("minimal_history")
+    print("replay of %s key=%s: %s" % (d.get("property"), d.get("key"), d.get("what")))
+    if not steps:
+        print(json.dumps(rp, indent=1)[:3000])
+        getattr(__import__("kqcheck"), "check_" + run.pid)(run)
+        return
+    with Lock():
+        ok, log, kqh = build_kq()
+        okd, logd, drv = build_driver()
+    if not (ok and okd):
+        print("build failed:\n" + (log + logd)[-2000:])
+        run.violation(d.get("key", "replay-build"), "replay could not be built", {"log": (log + logd)[-2000:]}, nofail=True)
+        return
+    ctx = Ctx(kqh, drv)
+    lines, r = annotate(ctx, steps, "replay")
+    print("--- observations of the implementation (current tree)")
+    for l in lines:
+        print("  " + l)
+    print("--- model prediction vs implementation")
+    for m in r.get("model", []):
+        print("  MISMATCH MODEL %s step=%d field=%s %s" % (m["prop"], m["step"], m["field"], m["text"]))
+    if not r.get("model"):
+        print("  model and implementation agree on every step")
+    print("--- specification verdict on the implementation's observations")
+    hit = False
+    for s in r.get("spec", []):
+        if s["prop"] == run.pid:
+            print("  VIOLATED clause=%s detail=[%s] at step %d: %s" % (s["clause"], s["detail"], s["step"], s["at"]))
+            if s["clause"] == rp.get("clause"):
+                hit = True
+    if not any(s["prop"] == run.pid for s in r.get("spec", [])):
+        print("  no clause of %s fails" % run.pid)
+    if hit or (rp.get("kind") == "divergence" and any(m["prop"] == run.pid for m in r.get("model", []))):
+        run.violation(d.get("key"), d.get("what"), rp, nofail=(rp.get("kind") == "divergence"))
